@@ -85,14 +85,37 @@ def run(ctx, replay_case):
         data = b"".join(msgs)
         ops.append(("FRONT", "hex", render_hex(data, rnd)))
         ops.append(("FRONT", "swtpm", render_swtpm(msgs, rnd)))
+    # --- pcapng payload handling: real captures written with dpkt vs the model of what happens after dpkt.
+    # payload lengths around the runt bound, size fields below / at / above the payload length by any amount
+    n_front = len(ops)
+    def payload(n, size):
+        b = bytearray(rnd.randrange(256) for _ in range(n))
+        if n >= 6:
+            b[2:6] = max(0, size).to_bytes(4, "big")
+        return bytes(b)
+    for n in range(1, 15):           # dpkt drops nothing here: empty TCP payloads are the b"" runt below
+        for d in (-3, -1, 0, 1, 2, 3, 4, 5, 8):
+            ops.append(("TRIM", [payload(n, n + d)], "ip"))
+    for i in range(150 if ctx.tier == "quick" else 1500):
+        ps = []
+        for _ in range(rnd.choice([1, 2, 3, 5])):
+            n = rnd.choice([0, 3, 4, 9, 10, 11, 12, 20, 33])
+            ps.append(payload(n, n - rnd.choice([0, 0, 0, 1, 2, 3, 4, 4, 5, 7, 8, n]) if rnd.random() < 0.8 else n + rnd.randrange(1, 9)))
+        ops.append(("TRIM", ps, rnd.choice(["ip", "eth"])))
     impl = core.run_impl(ops)
     model = core.run_model([core.op_line(o) for o in ops])
     corr = [i for i in range(len(ops)) if impl[i] != model[i]]
     if corr:
-        i = min(corr, key=lambda j: len(ops[j][2]))
-        ctx.violations.append({"kind": "correspondence", "what": f"front-end model and implementation disagree ({ops[i][1]})",
-                               "replay": {"correspondence": "FRONT " + ops[i][1], "text_hex": ops[i][2].hex(), "text": repr(ops[i][2]),
-                                          "model": model[i], "impl": impl[i], "disagreements": len(corr)}})
+        i = min(corr, key=lambda j: len(ops[j][2]) if ops[j][0] == "FRONT" else 10 ** 6)
+        if ops[i][0] == "TRIM":
+            i = min((j for j in corr if ops[j][0] == "TRIM"), key=lambda j: sum(len(p) for p in ops[j][1]))
+            ctx.violations.append({"kind": "correspondence", "what": "pcapng payload model and implementation disagree",
+                                   "replay": {"correspondence": "TRIM", "payloads": [p.hex() for p in ops[i][1]], "link": ops[i][2],
+                                              "model": model[i], "impl": impl[i], "disagreements": len(corr)}})
+        else:
+            ctx.violations.append({"kind": "correspondence", "what": f"front-end model and implementation disagree ({ops[i][1]})",
+                                   "replay": {"correspondence": "FRONT " + ops[i][1], "text_hex": ops[i][2].hex(), "text": repr(ops[i][2]),
+                                              "model": model[i], "impl": impl[i], "disagreements": len(corr)}})
     # --- monitor 1: rendered containers yield exactly the carried bytes; non-hex text is rejected
     k = n_exh
     nbad = 0
@@ -130,12 +153,25 @@ def run(ctx, replay_case):
                 ctx.violations.append({"kind": "concrete", "signature": "auto:magic",
                                        "what": f"auto-detection of {text[:2].hex()}: expected {exp}, observed {impl[i][0]}",
                                        "replay": {"front_end": "auto", "text_hex": text.hex()}})
+    # --- monitor 1b: the pcapng payload rule as stated: runts (< 10 bytes) skipped, every other payload cut to its own size field
+    for i in range(n_front, len(ops)):
+        exp = b""
+        for pl in ops[i][1]:
+            if len(pl) >= 10:
+                exp += pl[: int.from_bytes(pl[2:6], "big")]
+        if impl[i] != [f"F ok {exp.hex() or '-'}"]:
+            nbad += 1
+            ctx.violations.append({"kind": "concrete", "signature": "pcap:trim",
+                                   "what": "pcapng payloads are not trimmed to their own size field with runt packets skipped",
+                                   "replay": {"front_end": "pcapng", "payloads": [p.hex() for p in ops[i][1]], "link": ops[i][2],
+                                              "expected": exp.hex(), "observed": impl[i][0][:200]}})
     # --- monitor 2: events through each container == events of the carried bytes
     via = []
     for msgs in streams[: (40 if ctx.tier == "quick" else 300)]:
         data = b"".join(msgs)
         runt = [b"\x00\x01\x02", b""]
-        extra = [m + b"\x00\x00\x00\x00" if rnd.random() < 0.3 else m for m in msgs]   # mssim responses carry 4 extra bytes
+        # mssim responses carry 4 extra bytes; the statement says "trimmed to their own size field", so any surplus
+        extra = [m + bytes(rnd.randrange(256) for _ in range(rnd.choice([4, 4, 1, 2, 7, 16]))) if rnd.random() < 0.4 else m for m in msgs]
         with_runts = []
         for m in extra:
             with_runts.append(m)
@@ -162,16 +198,16 @@ def run(ctx, replay_case):
         k += len(conts)
     outc = collections.Counter(b[0].split(" ")[1] for b in impl)
     ctx.stats.update({
-        "evaluations": len(ops) + len(vops), "distinct_nontrivial": len({(o[1], o[2]) for o in ops if len(o[2]) > 1}),
+        "evaluations": len(ops) + len(vops), "distinct_nontrivial": len({(o[1], o[2]) for o in ops if o[0] == "FRONT" and len(o[2]) > 1}) + sum(1 for o in ops if o[0] == "TRIM"),
         "rule": f"exhaustive: all strings up to length {hmax} over {len(hex_alpha)} characters for the hex scanner, up to length {smax} over "
                 f"{len(sw_alpha)} characters (and payload-state strings behind a marker) for the swtpm scanner, 2560 two-byte magics for "
                 "auto-detection (model vs implementation, and against the stated rule); generated message streams rendered as hex text with "
                 "random case/whitespace noise, as swtpm log in the documented layout with control sections, as pcapng (IP or Ethernet, mssim "
                 "padding, runt packets) and through auto-detection: events must equal those of the carried bytes",
-        "samples": [{"front": o[1], "text": repr(o[2])[:80], "impl": impl[i][0][:60]} for i, o in list(enumerate(ops))[:: max(1, len(ops) // 6)]][:6],
+        "samples": [{"front": str(o[1])[:80], "text": repr(o[2])[:80], "impl": impl[i][0][:60]} for i, o in list(enumerate(ops))[:: max(1, len(ops) // 6)]][:6],
         "exhaustive": True,
         "correspondence": {"ops": len(ops), "model_vs_impl_disagreements": len(corr)},
-        "distribution": {"scanner_outcomes": dict(outc), "rendered_streams": len(streams), "via_container_decodes": len(vops), "monitor_failures": nbad},
+        "distribution": {"scanner_outcomes": dict(outc), "pcap_payload_lists": len(ops) - n_front, "rendered_streams": len(streams), "via_container_decodes": len(vops), "monitor_failures": nbad},
     })
 
 
